@@ -31,7 +31,8 @@ mpz_realloc2 (mpz_ptr m, mp_bitcnt_t bits)
   mp_ptr mp;
   mp_size_t new_alloc;
 
-  new_alloc = (bits + GMP_NUMB_BITS-1) / GMP_NUMB_BITS;
+  /* bits + GMP_NUMB_BITS-1 would wrap for bit counts near the maximum */
+  new_alloc = bits / GMP_NUMB_BITS + (bits % GMP_NUMB_BITS != 0);
 
   /* _mp_alloc and _mp_size are ints: a larger count cannot be recorded, and
      storing it would leave a negative allocation and size behind */
